@@ -61,16 +61,22 @@ Section Unpack.
   (* ---- what the converter emits: accessors over the temporary holding tuple(value) ---- *)
   Definition eval_acc (tmp : ident) (t : list V) (e : expr) : option bound :=
     match e with
-    | Subscript (Name n) (Constant (CInt i)) =>
-        if String.eqb n tmp then option_map BVal (py_index t i) else None
-    | Call (Name "list") [Subscript (Name n) (Slice (Some (Constant (CInt lo))) hi None)] [] =>
-        if String.eqb n tmp then
-          match hi with
-          | None => Some (BList (py_slice t lo None))
-          | Some (Constant (CInt h)) => Some (BList (py_slice t lo (Some h)))
-          | Some _ => None
-          end
-        else None
+    | Subscript (Name n) i =>
+        match int_of i with
+        | Some z => if String.eqb n tmp then option_map BVal (py_index t z) else None
+        | None => None
+        end
+    | Call (Name "list") [Subscript (Name n) (Slice (Some lo) hi None)] [] =>
+        match int_of lo with
+        | Some l =>
+            if String.eqb n tmp then
+              match hi with
+              | None => Some (BList (py_slice t l None))
+              | Some h => match int_of h with Some hz => Some (BList (py_slice t l (Some hz))) | None => None end
+              end
+            else None
+        | None => None
+        end
     | _ => None
     end.
 
